@@ -20,19 +20,25 @@ if [ "$res" = confirmed ]; then
   ( cd $wt && go test -count=1 -run . ./$pkgdir >/tmp/sv_$name.with 2>&1 ) && res="demo passes WITH the change"
   ( cd $wt && git apply -R $src/patch.diff && go test -count=1 -run . ./$pkgdir >/tmp/sv_$name.without 2>&1 ) || res="demo fails WITHOUT the change"
 fi
-git -C /repo worktree remove --force $wt
 echo "seed $name ($id): $res (demo pkg $pkgdir)"
-[ "$res" = confirmed ] || exit 3
+if [ "$res" != confirmed ]; then git -C /repo worktree remove --force $wt; exit 3; fi
 mkdir -p seeded/$name
 cp $src/patch.diff seeded/$name/patch.diff
 cp $demo seeded/$name/
 cp $src/notes.md seeded/$name/notes.md 2>/dev/null
-# run the check against the seeded tree
-git -C /repo apply $src/patch.diff || exit 2
-./check $id $tier > out/seed_$name.log 2>&1
+# run the check against the seeded tree: an isolated copy (scratch worktree of /repo with the
+# patch applied, scratch VERIF_DIR) so that /repo and /verif/evidence stay untouched and
+# other runs against /repo are not disturbed
+rm -f $wt/$pkgdir/$(basename $demo)
+( cd $wt && git apply $src/patch.diff ) || exit 2
+vd=/tmp/svd_$name
+rm -rf $vd; mkdir -p $vd/out $vd/evidence
+cp -r harness known_findings.json $vd/
+[ -x bin/gosymx ] || ./setup.sh >/dev/null 2>&1
+VERIF_DIR=$vd VERIF_REPO=$wt ./bin/gosymx check $id $tier > out/seed_$name.log 2>&1
 rc=$?
-git -C /repo checkout -- .
-git -C /repo status --short | head -3
+rm -rf $vd
+git -C /repo worktree remove --force $wt
 viol=$(grep -m1 "^VIOLATION" out/seed_$name.log)
 echo "check $id $tier on seed $name: exit $rc ${viol}"
 grep -h "harness=\|native outcome\|BROKEN\|DISCREPANCY" out/seed_$name.log | head -4
@@ -47,7 +53,7 @@ except Exception: pass
 meta={"property":id,"seed":name,"demo_package":pkg,
  "confirmed":"patch applies to /repo HEAD, go build ./... ok, go test ./... green with the change, demonstration test fails with the change and passes without it (seed_eval.sh, scratch worktree)",
  "needs":notes[:1500],
- "check_run":"./check %s %s with the patch applied to /repo (git apply), reverted afterwards"%(id,tier),
+ "check_run":"gosymx check %s %s against a scratch worktree of /repo HEAD with the patch applied (VERIF_REPO), removed afterwards"%(id,tier),
  "check_exit":int(rc),"caught":int(rc)==1,
  "caught_by":(m.group(1)+": "+m.group(2)) if m else None}
 json.dump(meta,open('/verif/seeded/%s/meta.json'%name,'w'),indent=1)
